@@ -362,6 +362,35 @@ func runDurRemove(c *Ctx, r *RuleRun) {
 		// (a)/(d): dominated by a durable table publish
 		q := PathQuery{P: p, Fn: f, Avoid: d.tablePub.Avoid(f), EdgeOK: d.tablePub.EdgeOK(f), Target: func(ins ssa.Instruction) bool { return ins == s.ins }}
 		w := q.FindPath()
+		localOnly := false
+		if df, isDefer := s.ins.(*ssa.Defer); isDefer {
+			localOnly = true
+			// a deferred removal runs at every exit after the defer statement - also when the function panics. It is
+			// justified only if nothing between the defer and such an exit can happen before the publish.
+			baseAvoid := d.tablePub.Avoid(f)
+			noRet := func(ins ssa.Instruction) bool {
+				if _, isPanic := ins.(*ssa.Panic); isPanic {
+					return true
+				}
+				cl, ok := ins.(*ssa.Call)
+				return ok && p.CallNoReturn(cl)
+			}
+			q2 := PathQuery{P: p, Fn: f, Starts: []ssa.Instruction{df}, Avoid: func(ins ssa.Instruction) bool { return !noRet(ins) && baseAvoid(ins) }, EdgeOK: d.tablePub.EdgeOK(f), Target: func(ins ssa.Instruction) bool {
+				switch x := ins.(type) {
+				case *ssa.RunDefers, *ssa.Panic:
+					return true
+				case *ssa.Call:
+					return p.CallNoReturn(x)
+				}
+				return false
+			}}
+			w2 := q2.FindPath()
+			if w2 != nil {
+				w = w2
+			} else {
+				w = nil
+			}
+		}
 		if w == nil {
 			r.Hold(fn, construct, pos, "every path to the removal passes a table that was written, fsynced and renamed into place, with the error checked")
 			continue
@@ -379,7 +408,7 @@ func runDurRemove(c *Ctx, r *RuleRun) {
 		_ = isRemove
 		// not justified inside this function: a helper that only removes what it is told to - the obligation then lies
 		// with every call site of the helper
-		if s.depth < 3 && !token.IsExported(f.Name()) {
+		if s.depth < 3 && !token.IsExported(f.Name()) && !localOnly {
 			var callers []ssa.CallInstruction
 			for _, cs := range p.CallersOf(f) {
 				if !strings.HasSuffix(p.Fset.Position(cs.Pos()).Filename, "_test.go") {
